@@ -137,6 +137,26 @@ theorem ht_facts : ∀ ht ∈ Spec.Sighash.stdHashTypes,
 
 theorem zero32_eq : zero32 = Spec.Sighash.zero32 := rfl
 
+/-- what the legacy / BIP143 proofs need of a hash type: the library's decoding (`& 0x80`, `& 3`) agrees with
+    Core's (`& 0x80`, `& 0x1f`), and the value fits its serialised width -/
+def HtOK (ht : Nat) : Prop :=
+  acp ht = Spec.Sighash.anyoneCanPay ht ∧
+  (decide (base ht = Gen.sighashSingle) = Spec.Sighash.isSingle ht) ∧
+  (decide (base ht = Gen.sighashNone) = Spec.Sighash.isNone ht) ∧ ht < 256
+
+theorem htOK_std {ht : Nat} (h : ht ∈ Spec.Sighash.stdHashTypes) : HtOK ht := by
+  obtain ⟨a, b, c, d, _, _⟩ := ht_facts ht h
+  exact ⟨a, b, c, d⟩
+
+/-- all hash-type bytes on which the two decodings agree: `ht & 3 < 2` (both treat it like ALL) or
+    `ht & 0x1f < 4` (the low five bits are the low two) — 160 of the 256 byte values -/
+theorem htOK_byte : ∀ ht, ht < 256 → (ht % 4 < 2 ∨ ht % 32 < 4) → HtOK ht := by
+  unfold HtOK; decide +kernel
+
+/-- … and on the other 96 byte values they do not -/
+theorem htOK_byte_iff : ∀ ht, ht < 256 → (HtOK ht ↔ (ht % 4 < 2 ∨ ht % 32 < 4)) := by
+  unfold HtOK; decide +kernel
+
 /-! ### BIP143 -/
 
 theorem bip143Prevouts_spec (H : Hashes) (t : Tx) (st : Spec.Sighash.Tx) (ht : Nat)
@@ -208,16 +228,16 @@ theorem bip143Input_spec (txin : TxIn) (si : Spec.Sighash.TxIn) (redeem ws : Opt
     script_serialize_spec hraw hlen, Spec.Sighash.serOutPoint, r1]
 
 /-- BIP143: the preimage the repaired code hashes is the preimage of the specification -/
-theorem bip143_pre_spec (H : Hashes) (t : Tx) (st : Spec.Sighash.Tx) (i ht amount : Nat) (txin : TxIn)
+theorem bip143_pre_spec_gen (H : Hashes) (t : Tx) (st : Spec.Sighash.Tx) (i ht amount : Nat) (txin : TxIn)
     (redeem ws : Option Script) (code : Script) (codeRaw : Bytes)
-    (rep : Rep t st) (hht : ht ∈ Spec.Sighash.stdHashTypes)
+    (rep : Rep t st) (hht : HtOK ht)
     (hin : t.ins[i]? = some txin) (hcode : scriptCode143 txin redeem ws = some code)
     (hraw : rawSerialize code = some codeRaw) (hlen : codeRaw.length < 2 ^ 64)
     (hval : txin.value = some amount) (hamt : amount < 2 ^ 64) :
     sigHashBip143Pre Cfg.repaired H { tx := t } i redeem ws ht =
       (Spec.Sighash.bip143 H.hash256 st i codeRaw amount ht).map fun p => (p, { tx := t }) := by
   obtain ⟨hv, hl, rv, rl, _, _, hins, houts⟩ := rep
-  obtain ⟨ha, hs, hn, hlt, _, _⟩ := ht_facts ht hht
+  obtain ⟨ha, hs, hn, hlt⟩ := hht
   rcases forall₂_getElem? hins i with ⟨h1, _⟩ | ⟨a, si, h1, h2, hr⟩
   · rw [hin] at h1; cases h1
   rw [hin] at h1; cases h1
@@ -232,6 +252,17 @@ theorem bip143_pre_spec (H : Hashes) (t : Tx) (st : Spec.Sighash.Tx) (i ht amoun
   rfl
 
 /-! ### BIP341 -/
+
+/-- BIP143: the preimage the repaired code hashes is the preimage of the specification -/
+theorem bip143_pre_spec (H : Hashes) (t : Tx) (st : Spec.Sighash.Tx) (i ht amount : Nat) (txin : TxIn)
+    (redeem ws : Option Script) (code : Script) (codeRaw : Bytes)
+    (rep : Rep t st) (hht : ht ∈ Spec.Sighash.stdHashTypes)
+    (hin : t.ins[i]? = some txin) (hcode : scriptCode143 txin redeem ws = some code)
+    (hraw : rawSerialize code = some codeRaw) (hlen : codeRaw.length < 2 ^ 64)
+    (hval : txin.value = some amount) (hamt : amount < 2 ^ 64) :
+    sigHashBip143Pre Cfg.repaired H { tx := t } i redeem ws ht =
+      (Spec.Sighash.bip143 H.hash256 st i codeRaw amount ht).map fun p => (p, { tx := t }) :=
+  bip143_pre_spec_gen H t st i ht amount txin redeem ws code codeRaw rep (htOK_std hht) hin hcode hraw hlen hval hamt
 
 theorem ht_facts341 : ∀ ht ∈ Spec.Sighash.stdHashTypes,
     (decide ((if ht = 0 then 1 else ht % 4) = 3) = decide (base ht = Gen.sighashSingle)) ∧
@@ -571,14 +602,14 @@ def legacyOfSpec : Spec.Sighash.LegacyResult → LegacyPre
   | .one => .one
   | .preimage b => .pre b
 
-theorem legacy_pre_spec (t : Tx) (st : Spec.Sighash.Tx) (i ht : Nat) (redeem : Option Script) (codeS : Script)
-    (codeRaw : Bytes) (rep : Rep t st) (hht : ht ∈ Spec.Sighash.stdHashTypes)
+theorem legacy_pre_spec_gen (t : Tx) (st : Spec.Sighash.Tx) (i ht : Nat) (redeem : Option Script) (codeS : Script)
+    (codeRaw : Bytes) (rep : Rep t st) (hht : HtOK ht)
     (hcode : ∀ txin, t.ins[i]? = some txin → legacyCode redeem txin = some codeS)
     (hraw : rawSerialize codeS = some codeRaw) (hlen : codeRaw.length < 2 ^ 64)
     (hsep : Spec.Sighash.stripCodeSep codeRaw.length codeRaw = codeRaw) :
     sigHashLegacyPre t i redeem ht = some (legacyOfSpec (Spec.Sighash.legacy st i codeRaw ht)) := by
   obtain ⟨hv, hl, rv, rl, nin, nout, hins, houts⟩ := rep
-  obtain ⟨ha, hs, hn, hlt, _, _⟩ := ht_facts ht hht
+  obtain ⟨ha, hs, hn, hlt⟩ := hht
   have len1 := forall₂_length hins
   have len2 := forall₂_length houts
   have gS : Spec.Sighash.isSingle ht = true ↔ base ht = Gen.sighashSingle := by rw [← hs]; simp
@@ -652,6 +683,14 @@ theorem legacy_pre_spec (t : Tx) (st : Spec.Sighash.Tx) (i ht : Nat) (redeem : O
   simp only [legacyBody, Gen.legacyVersionW, Gen.locktimeSerW, Gen.legacyHashTypeW, e1, e2, e6, inCount, insEq, insSpec,
     outCount, outsSpec, Option.pure_def, Option.bind_eq_bind, Option.bind_some, Option.map_some, legacyOfSpec]
   cases Spec.Sighash.anyoneCanPay ht <;> simp only [List.append_assoc, if_true, if_false, Bool.false_eq_true] <;> rfl
+
+theorem legacy_pre_spec (t : Tx) (st : Spec.Sighash.Tx) (i ht : Nat) (redeem : Option Script) (codeS : Script)
+    (codeRaw : Bytes) (rep : Rep t st) (hht : ht ∈ Spec.Sighash.stdHashTypes)
+    (hcode : ∀ txin, t.ins[i]? = some txin → legacyCode redeem txin = some codeS)
+    (hraw : rawSerialize codeS = some codeRaw) (hlen : codeRaw.length < 2 ^ 64)
+    (hsep : Spec.Sighash.stripCodeSep codeRaw.length codeRaw = codeRaw) :
+    sigHashLegacyPre t i redeem ht = some (legacyOfSpec (Spec.Sighash.legacy st i codeRaw ht)) :=
+  legacy_pre_spec_gen t st i ht redeem codeS codeRaw rep (htOK_std hht) hcode hraw hlen hsep
 
 /-! ### history independence of the repaired code -/
 
@@ -1097,5 +1136,96 @@ theorem dispatch_p2tr (h : Bytes) (hl : h.length = 32) (w : List Bytes) :
     Spec.Sighash.dispatch ([0x51, 0x20] ++ h) none w =
       some (.bip341 (Spec.Sighash.extFlagOf w) (Spec.Sighash.annexOf w)) := by
   simp [Spec.Sighash.dispatch, Spec.Sighash.isP2SH, Spec.Sighash.witnessProgram, Spec.Sighash.witnessRule, hl]
+
+/-! ### OP_CODESEPARATOR -/
+
+theorem stripCodeSep_nil (f : Nat) : Spec.Sighash.stripCodeSep f [] = [] := by cases f <;> rfl
+
+/-- one `GetOp` step of Core's `SerializeScriptCode` walks over exactly one serialised command -/
+theorem stripCodeSep_step (f : Nat) (c : Cmd) (b rest : Bytes) (wf : CmdWF c) (h : serCmd c = some b)
+    (hno : c ≠ .op 0xab) :
+    Spec.Sighash.stripCodeSep (f + 1) (b ++ rest) = b ++ Spec.Sighash.stripCodeSep f rest := by
+  cases c with
+  | op n =>
+    have hn : n ≤ 255 := by unfold CmdWF at wf; omega
+    rw [serCmd_op hn] at h; cases h
+    have e : (UInt8.ofNat n).toNat = n := u8_toNat_ofNat_lt (by omega)
+    have hne : n ≠ 0xab := fun hh => hno (by rw [hh])
+    unfold CmdWF at wf
+    simp only [List.cons_append, List.nil_append, Spec.Sighash.stripCodeSep, e, hne, if_false]
+    have hh : Spec.Sighash.pushHeader n rest = some (0, 0) := by
+      unfold Spec.Sighash.pushHeader
+      rcases wf with rfl | ⟨w1, w2⟩
+      · simp
+      · have a0 : ¬ n ≤ 75 := by omega
+        have a1 : ¬ n = 76 := by omega
+        have a2 : ¬ n = 77 := by omega
+        have a3 : ¬ n = 78 := by omega
+        simp [a0, a1, a2, a3]
+    simp [hh]
+  | push d =>
+    unfold CmdWF at wf
+    by_cases h0 : d.length ≤ 75
+    · rw [serCmd_push_small h0] at h; cases h
+      have e : (UInt8.ofNat d.length).toNat = d.length := u8_toNat_ofNat_lt (by omega)
+      have hne : ¬ d.length = 0xab := by omega
+      simp only [List.cons_append, Spec.Sighash.stripCodeSep, e, hne, if_false, Spec.Sighash.pushHeader, h0, if_true,
+        Nat.zero_add]
+      have hl : ¬ (d ++ rest).length < d.length := by simp
+      simp only [hl, if_false, take_append_len _ _ _ rfl, drop_append_len _ _ _ rfl]
+    · by_cases h1 : d.length < 256
+      · rw [serCmd_push_mid (by omega) h1] at h; cases h
+        have e : (UInt8.ofNat d.length).toNat = d.length := u8_toNat_ofNat_lt h1
+        have t : (76 : UInt8).toNat = 76 := rfl
+        simp only [List.cons_append, Spec.Sighash.stripCodeSep, t, Spec.Sighash.pushHeader, e]
+        have hl : ¬ (UInt8.ofNat d.length :: (d ++ rest)).length < 1 + d.length := by simp; omega
+        have tk : (UInt8.ofNat d.length :: (d ++ rest)).take (1 + d.length) = UInt8.ofNat d.length :: d := by
+          rw [Nat.add_comm, List.take_succ_cons, take_append_len _ _ _ rfl]
+        have dr : (UInt8.ofNat d.length :: (d ++ rest)).drop (1 + d.length) = rest := by
+          rw [Nat.add_comm, List.drop_succ_cons, drop_append_len _ _ _ rfl]
+        simp [hl, tk, dr]
+        intro hh; exfalso; omega
+      · rw [serCmd_push_big (by omega) wf] at h; cases h
+        have hl2 : d.length < 256 ^ 2 := by omega
+        have t : (77 : UInt8).toNat = 77 := rfl
+        have hle : natToLE' 2 d.length = [UInt8.ofNat (d.length % 256), UInt8.ofNat (d.length / 256 % 256)] := by
+          simp [natToLE']
+        have e0 : (UInt8.ofNat (d.length % 256)).toNat = d.length % 256 := u8_toNat_ofNat_lt (by omega)
+        have e1 : (UInt8.ofNat (d.length / 256 % 256)).toNat = d.length / 256 % 256 := u8_toNat_ofNat_lt (by omega)
+        have sum : d.length % 256 + 256 * (d.length / 256 % 256) = d.length := by omega
+        simp only [List.cons_append, List.append_assoc, Spec.Sighash.stripCodeSep, t, Spec.Sighash.pushHeader, hle,
+          List.cons_append, List.nil_append, e0, e1, sum]
+        have hl : ¬ (UInt8.ofNat (d.length % 256) :: UInt8.ofNat (d.length / 256 % 256) :: (d ++ rest)).length < 2 + d.length := by
+          simp; omega
+        have tk : (UInt8.ofNat (d.length % 256) :: UInt8.ofNat (d.length / 256 % 256) :: (d ++ rest)).take (2 + d.length)
+            = UInt8.ofNat (d.length % 256) :: UInt8.ofNat (d.length / 256 % 256) :: d := by
+          rw [Nat.add_comm, List.take_succ_cons, List.take_succ_cons, take_append_len _ _ _ rfl]
+        have dr : (UInt8.ofNat (d.length % 256) :: UInt8.ofNat (d.length / 256 % 256) :: (d ++ rest)).drop (2 + d.length) = rest := by
+          rw [Nat.add_comm, List.drop_succ_cons, List.drop_succ_cons, drop_append_len _ _ _ rfl]
+        simp [hl, tk, dr]
+        intro hh; exfalso; omega
+
+theorem stripCodeSep_serCmds (cs : List Cmd) (b rest : Bytes) (f : Nat) (wf : ∀ c ∈ cs, CmdWF c)
+    (h : serCmds cs = some b) (hno : Cmd.op 0xab ∉ cs) (hf : cs.length ≤ f) :
+    Spec.Sighash.stripCodeSep f (b ++ rest) = b ++ Spec.Sighash.stripCodeSep (f - cs.length) rest := by
+  induction cs generalizing b f with
+  | nil => cases h; simp
+  | cons c cs ih =>
+    obtain ⟨b1, b2, h1, h2, rfl⟩ := serCmds_cons h
+    obtain ⟨f', rfl⟩ : ∃ f', f = f' + 1 := ⟨f - 1, by simp at hf; omega⟩
+    have hc : c ≠ .op 0xab := fun e => hno (by simp [e])
+    rw [List.append_assoc, stripCodeSep_step f' c b1 _ (wf c (by simp)) h1 hc,
+      ih b2 f' (fun c hc => wf c (by simp [hc])) h2 (fun hm => hno (by simp [hm])) (by simp at hf; omega)]
+    simp [List.append_assoc]
+
+/-- a canonically encoded script without the opcode OP_CODESEPARATOR passes through Core's
+    `SerializeScriptCode` unchanged: the hypothesis `hsep` of the legacy theorem holds for it -/
+theorem no_codesep_strip (cs : List Cmd) (b : Bytes) (wf : ∀ c ∈ cs, CmdWF c) (h : serCmds cs = some b)
+    (hno : Cmd.op 0xab ∉ cs) : Spec.Sighash.stripCodeSep b.length b = b := by
+  have hl := serCmds_length wf h
+  have hge := cmdsSize_ge_length cs
+  have := stripCodeSep_serCmds cs b [] b.length wf h hno (by omega)
+  rw [List.append_nil, stripCodeSep_nil, List.append_nil] at this
+  exact this
 
 end Buidl.Tx
